@@ -2516,4 +2516,54 @@ M("e16-fn-call-memo", "C14", "fire E16", "src/compile.rs",
                 }
                 // the callee sees the consts and its parameters, but no variable of the caller:
                 let mut env = env.outermost_scope();""", "seed C02-g (shape): a path through the FnCall arm returns without lowering the callee's body")
+# ---------------------------------------------------------------- thirteenth seed batch as mutants
+M2("e8-env-level-lookup-in-mux-envs", "C14", "fire E8", [
+  ("src/circuit.rs", """        let mut muxed = Env(vec![]);
+        for (a, b) in a.0.iter().zip(b.0.iter()) {""", """        let mut muxed = Env(vec![]);
+        let env_a = &a;
+        for (a, b) in a.0.iter().zip(b.0.iter()) {"""),
+  ("src/circuit.rs", """            for (identifier, binding_a) in a {
+                let binding_b = b.get(identifier).unwrap();""", """            for (identifier, _) in a {
+                let binding_a = &env_a.get(identifier).unwrap();
+                let binding_b = b.get(identifier).unwrap();"""),
+  ], "seed C14-m (shape): the a-side binding is looked up through Env::get (innermost visible binding) instead of the scope being merged")
+M("l13-repeat-starts-with-element", "C09", "fire L13", "src/literal.rs",
+  """                let elem = elem.as_bits(checked, const_sizes);
+                let elem_size = elem.len();
+                let mut bits = vec![false; elem_size * size];
+                for i in 0..*size {
+                    bits[(i * elem_size)..(i * elem_size) + elem_size].copy_from_slice(&elem);
+                }
+                bits""",
+  """                let mut bits = elem.as_bits(checked, const_sizes);
+                let elem_size = bits.len();
+                for _ in 1..*size {
+                    bits.extend_from_within(..elem_size);
+                }
+                bits""", "seed C09-i: `[x; 0]` encodes one element")
+M("l13-quiet-repeat-by-push-loop", "C09", "quiet", "src/literal.rs",
+  """                let mut bits = vec![false; elem_size * size];
+                for i in 0..*size {
+                    bits[(i * elem_size)..(i * elem_size) + elem_size].copy_from_slice(&elem);
+                }
+                bits""",
+  """                let mut bits = Vec::with_capacity(elem_size * size);
+                for _ in 0..*size {
+                    bits.extend_from_slice(&elem);
+                }
+                bits""", "behaviour-preserving: the copies are appended in a loop over 0..size")
+M("t16-visited-set-shared", "C17", "fire T16", "src/check.rs",
+  """        for (name, meta) in type_defs {
+            let mut visited = HashSet::new();""",
+  """        let mut visited = HashSet::new();
+        for (name, meta) in type_defs {""", "seed C07-g: one visited-set for the walks of all definitions")
+M("o9-distribution-helper-wrong-operand", "C04", "fire O9", "src/circuit.rs",
+  """                    if let (Some(&x_and_y1), Some(&x_and_y2)) = (
+                        self.get_cached(&BuilderGate::And(x, y1)),
+                        self.get_cached(&BuilderGate::And(x, y2)),
+                    ) {""",
+  """                    if let (Some(&x_and_y1), Some(&x_and_y2)) = (
+                        self.get_cached(&BuilderGate::And(y, y1)),
+                        self.get_cached(&BuilderGate::And(y, y2)),
+                    ) {""", "seed C04-g (inlined): the y-side distribution pairs the XOR inputs with y itself")
 
